@@ -11,7 +11,7 @@ the reported ones, then `git -C /repo checkout -- .`.  Results: selftest/REVERTS
 """
 import os, sys, json, subprocess, tempfile, shutil, time, re
 V = os.path.dirname(os.path.dirname(os.path.abspath(__file__)))
-REPO = '/repo'
+REPO = '/tmp/mmd6-wt-reverts'          # scratch worktree of /repo (removed at the end); checks are pointed at it through VERIF_REPO
 OUTD = os.path.join(V, 'selftest')
 
 
@@ -36,6 +36,16 @@ def main():
         if e['status'] == 'fixed' and e.get('commit'):
             by_commit.setdefault(e['commit'], []).append(e)
     os.makedirs(OUTD, exist_ok=True)
+    sh(['git', '-C', '/repo', 'worktree', 'remove', '--force', REPO])
+    wt = sh(['git', '-C', '/repo', 'worktree', 'add', '--detach', REPO, 'HEAD'])
+    assert wt.returncode == 0, wt.stderr
+    try:
+        run(a, tier, by_commit)
+    finally:
+        sh(['git', '-C', '/repo', 'worktree', 'remove', '--force', REPO])
+
+
+def run(a, tier, by_commit):
     rp = os.path.join(OUTD, 'REVERTS.json')
     allres = json.load(open(rp)) if os.path.exists(rp) else {}
     order = sh(['git', '-C', REPO, 'log', '--format=%h']).stdout.split()
@@ -63,7 +73,7 @@ def main():
                 want = sorted(e['key'] for e in entries if e['property'] == prop)
                 out = tempfile.mkdtemp(prefix='mmd6-revert-')
                 t0 = time.time()
-                env = dict(os.environ, VERIF_OUT_DIR=out, VERIF_TIER=tier, VERIF_SEED=os.environ.get('VERIF_SEED', '1'))
+                env = dict(os.environ, VERIF_REPO=REPO, VERIF_OUT_DIR=out, VERIF_TIER=tier, VERIF_SEED=os.environ.get('VERIF_SEED', '1'))
                 cp = sh([os.path.join(V, 'check'), prop, '--tier', tier], env=env, cwd=V)
                 keys = sorted(set(re.findall(r'^\s+key=(\S+)', cp.stdout, re.M)))
                 res['checks'][prop] = dict(exit=cp.returncode, detected=cp.returncode == 1, recorded_keys=want, recorded_key_seen=[k for k in want if k in keys],
